@@ -247,6 +247,10 @@ def concrete_check(prog, kind, rows, bind):
     msg = structural_problems(sq, rel)
     if msg:
         return True, "marker:" + msg.split(" between")[0].replace("recorded ", "").replace(" ", "-")[:60], {"why": msg, "tree": str(rel)}
+    from ..prog import tree_problem
+    tp = tree_problem(rel)
+    if tp:
+        return True, "tree-ill-formed", {"why": tp[:200], "tree": str(rel)}
     if {t.qualified_name for t in rel.columns} != set(cols_of(prog, sqlprogs.LEAFCOLS)):
         return True, "columns-differ", {"tree": str(rel), "columns": sorted(str(t) for t in rel.columns), "expected": sorted(cols_of(prog, sqlprogs.LEAFCOLS))}
     if kind == "raw" and sqlprogs.determinate(prog, bind):
